@@ -499,6 +499,24 @@ def _packet_reader(ctx, R, roles, T):
             for x, y in ((a, b), (b, a)):
                 if _is_checksum_of(x, pterm) and is_unpack_proj(y, 4):
                     ok_edges.append((tn, "true" if isinstance(t.ops[0], ast.Eq) else "false"))
+    # edges on which the header's data_length is known to be zero (the payload read is then empty: nothing to verify)
+    zero_edges = []
+    for tn in g.nodes:
+        if tn.kind != "test":
+            continue
+        t = unawait(tn.ast.test)
+        pol = True
+        while isinstance(t, ast.UnaryOp) and isinstance(t.op, ast.Not):
+            t, pol = unawait(t.operand), not pol
+        cand, zero_when = None, None
+        if isinstance(t, ast.Compare) and len(t.ops) == 1 and isinstance(t.ops[0], (ast.Eq, ast.NotEq)):
+            for x, y in ((t.left, t.comparators[0]), (t.comparators[0], t.left)):
+                if isinstance(y, ast.Constant) and y.value == 0 and not isinstance(y.value, bool):
+                    cand, zero_when = x, isinstance(t.ops[0], ast.Eq)
+        elif isinstance(t, (ast.Name, ast.Attribute)):
+            cand, zero_when = t, False
+        if cand is not None and is_unpack_proj(T.term(f, tn, cand), 3):
+            zero_edges.append((tn, "true" if zero_when == pol else "false"))
     for rn in rets:
         rt = T.term(f, rn, rn.ast.value)
         sub = "%s|%s" % (f.qualname, norm_stmt(rn.ast))
@@ -535,8 +553,8 @@ def _packet_reader(ctx, R, roles, T):
             # must be behind a checksum-ok edge
             blocked = set()
             reach = g.reach([g.entry], exc=True, include_start=True,
-                            edge_filter=lambda s, d, l: not any(s is tn and l == lab for tn, lab in ok_edges))
-            R.check(bool(ok_edges) and rn not in reach, "PKT", sub + "|checksum", "payload delivered only after checksum(payload) == header checksum",
+                            edge_filter=lambda s, d, l: not any(s is tn and l == lab for tn, lab in ok_edges + zero_edges))
+            R.check(bool(ok_edges) and rn not in reach, "PKT", sub + "|checksum", "payload delivered only after checksum(payload) == header checksum (or when the header announces no payload)",
                     "a payload can be delivered without its checksum having been compared with the header's data_check", f.loc(rn.ast))
         elif payload[0] == "c" and payload[1] in (b"", bytearray()):
             lk = None
